@@ -3,6 +3,7 @@ package models
 import (
 	"bytes"
 	"context"
+	authtypes "github.com/cosmos/cosmos-sdk/x/auth/types"
 	"math/big"
 
 	sdkmath "cosmossdk.io/math"
@@ -14,10 +15,9 @@ import (
 // ModuleAddress derives a deterministic, collision-free (for distinct short names) 20-byte
 // address for a module account name.
 func ModuleAddress(name string) sdk.AccAddress {
-	out := make([]byte, 20)
-	out[0] = 0xee
-	copy(out[1:], name)
-	return out
+	// the real derivation, so that code which asks authtypes.NewModuleAddress itself meets the
+	// same account as code that goes through the account keeper
+	return authtypes.NewModuleAddress(name)
 }
 
 type bankEntry struct {
